@@ -11,7 +11,7 @@ meta = json.load(open(os.path.join(seed, 'meta.json')))
 patch = os.path.join(seed, 'patch.diff')
 wt = tempfile.mkdtemp(prefix='vs.', dir='/tmp'); os.rmdir(wt)
 def run(cmd, cwd, timeout=600):
-    p = subprocess.run(cmd, shell=True, cwd=cwd, env=env, capture_output=True, text=True, timeout=timeout)
+    p = subprocess.run(cmd, shell=True, cwd=cwd, env=env, capture_output=True, text=True, errors='replace', timeout=timeout)
     return p.returncode, (p.stdout + p.stderr)[-1500:]
 res = {}
 try:
@@ -38,7 +38,7 @@ finally:
 caught = {}
 if res.get('applies_to_head'):
     for c in checks:
-        p = subprocess.run(['/verif/selftest.sh', patch, c], capture_output=True, text=True)
+        p = subprocess.run(['/verif/selftest.sh', patch, c], capture_output=True, text=True, errors='replace')
         caught[c] = 'caught' if p.returncode == 0 else ('missed' if p.returncode == 1 else 'error')
         first = [l for l in p.stdout.splitlines() if l.strip().startswith('[')]
         if first: caught[c + '_witness'] = first[0].strip()[:300]
